@@ -10,6 +10,7 @@ import (
 )
 
 var table = map[string]func(tier string) int{
+	"C08": checks.C08,
 	"C09": checks.C09,
 }
 
@@ -30,6 +31,9 @@ func main() {
 		fmt.Println("replaying", doc["property"], doc["key"])
 		checks.Replay(rep)
 		return
+	}
+	if os.Args[1] == "C08worker" {
+		os.Exit(checks.C08Worker(os.Args[2:]))
 	}
 	f, ok := table[os.Args[1]]
 	if !ok {
